@@ -307,6 +307,11 @@ def run_input(inp, ctx, applied=()):
                 [tuple(j in set(r) for j in range(m)) for r in dd['context']])
     got = (c.objects, c.properties, c.bools)
     ctx.check(got == want, site + '/representation', case, lambda: f'accepted input is represented as {got!r}, want {want!r}')
+    # the values handed out belong to the caller: destroy them in place, then ask again
+    ctx.call(site + '/wreck', case, lambda: [lib.wreck(x) for x in got if isinstance(x, list)])
+    again = (c.objects, c.properties, c.bools)
+    ctx.check(again == want, site + '/representation-after-caller-edit', case,
+              lambda: f'after the caller modified the list returned by .bools the context shows {again!r}, want {want!r}')
 
 
 def base_triple(case, cells='bool', rowtype='tuple'):
